@@ -717,6 +717,44 @@ theorem delineateBoundary_safe (e : Ext) (nrows ncols nval : Int) (cells mask : 
         have := hib s (Or.inr rfl)
         simp only []
         wp_lin
+/-- `c_delineate_area`: for any flow directions (cycles included), any outlet, inlets and buffer size `nval` —
+the three work buffers of `nval` cells are never overrun, and the unbounded `while` loop ends within `nval+1`
+layers -/
+theorem delineateArea_safe (e : Ext) (nrows ncols nval ninlets idxoutlet : Int) (code fdir inlets : Nat → Int)
+    (hr : 0 ≤ nrows) (hc : 0 ≤ ncols) (hN : nrows * ncols ≤ 9223372036854775807)
+    (hfd : nrows * ncols ≤ e .flowdir) (hcode : 9 ≤ e .flowdircode) (hin : ninlets ≤ e .idxinlets)
+    (ha : nval ≤ e .idxcellsArea) (hb1 : nval ≤ e .buffer1) (hb2 : nval ≤ e .buffer2) :
+    Safe (delineateArea e nrows ncols nval ninlets idxoutlet code fdir inlets) := by
+  apply safe_of_wp (Q := fun _ => True)
+  unfold delineateArea
+  refine wp_ite (fun _ => wp_pure trivial) (fun hv => ?_)
+  have hn0 : 0 ≤ nrows * ncols := Int.mul_nonneg hr hc
+  refine wp_bind (wp_i64 ⟨by omega, by omega⟩ ?_)
+  refine wp_ite (fun _ => wp_pure trivial) (fun ho => ?_)
+  refine wp_bind (wp_forLoop (fun _ _ => True) _ _ _ trivial ?_ ?_)
+  · intro m _ _ _ _
+    wp_lin
+  · intro r _
+    cases r with
+    | inr u => exact wp_pure trivial
+    | inl u =>
+      simp only []
+      refine wp_bind (wp_acc ⟨by omega, by omega⟩ ?_)
+      refine wp_bind (wp_forLoop (LInv nrows ncols nval) _ _ _ ?_ ?_ ?_)
+      · refine ⟨by simp, by simp; omega, by simp, by simp; omega, ?_⟩
+        intro b hb
+        simp at hb
+        subst hb
+        unfold InGrid; omega
+      · intro t s ht0 _ hs
+        exact wp_daLayer hr hc hN hfd hcode hin ha hb1 hb2 ht0 hs
+      · intro w hw
+        cases w with
+        | inr c => exact wp_pure trivial
+        | inl s =>
+          have := hw s rfl
+          unfold LInv at this
+          omega
 /-! ## wrapper obligations
 
 For every Cython wrapper `f` the generated `PyxSpec.f` gives the shapes, the integer scalars, the `assert`
@@ -1123,6 +1161,60 @@ theorem delineate_boundary_wrapper (s : delineate_boundary.Shapes) (v : delineat
   · omega
   · omega
 
+theorem delineate_area_wrapper (s : delineate_area.Shapes) (v : delineate_area.Scalars)
+    (ha : delineate_area.asserts s v) (hn : NumpySize s.flowdir_0 s.flowdir_1) (code fdir inlets : Nat → Int) :
+    Safe (delineateArea (ext_delineate_area (delineate_area.call s v)) (delineate_area.call s v).nrows
+      (delineate_area.call s v).ncols (delineate_area.call s v).nval (delineate_area.call s v).ninlets
+      (delineate_area.call s v).idxoutlet code fdir inlets) := by
+  unfold delineate_area.asserts at ha
+  unfold NumpySize at hn
+  obtain ⟨a1, a2, a3, a4⟩ := ha
+  apply delineateArea_safe <;> simp only [ext_delineate_area, delineate_area.call]
+  · omega
+  · omega
+  · exact hn
+  · push_cast; omega
+  · have e0 : s.flowdircode_0 = 3 := by omega
+    have e1 : s.flowdircode_1 = 3 := by omega
+    rw [e0, e1]
+  · omega
+  · omega
+  · omega
+  · omega
+
 end wrappers
+
+
+/-! ## the hypotheses are satisfiable, the models are not trivially safe -/
+
+/-- a concrete run: 4 values in 2 groups touch `outputs[0..1]`, `iend[0]` -/
+example : aggregate (fun b => match b with | .aggindex => 4 | .inputs => 4 | .outputs => 2 | .iend => 1 | _ => 0)
+    4 (fun i => if i < 2 then 1 else 2) = .ok 0 := by decide
+/-- one element less for `outputs` and the same run faults at `outputs[1]`: the footprint is tight -/
+example : aggregate (fun b => match b with | .aggindex => 4 | .inputs => 4 | .outputs => 1 | .iend => 1 | _ => 0)
+    4 (fun i => if i < 2 then 1 else 2) = .error (.oob .outputs 1) := by decide
+/-- `nprint = 0` is harmless only because of the `nprint > 0` guard: a bare `i % nprint` is `div0` -/
+example : cmod 5 0 = .error .div0 := by decide
+/-- `(long long) NaN` is a fault of the model: the fixed `c_coord2cell` never converts it -/
+example : castI64 none = .error .ovf := rfl
+example : coord2cell1 3 3 none (some 1) = .ok (-1) := by decide +kernel
+/-- the asserts of the `aggregate` wrapper hold for the shapes `dutils.aggregate` allocates (n = 5) -/
+example : HydroVerif.Generated.PyxSpec.aggregate.asserts { aggindex_0 := 5, inputs_0 := 5, outputs_0 := 5, iend_0 := 1 }
+    { oper := 0, maxnan := 0 } := by
+  simp [HydroVerif.Generated.PyxSpec.aggregate.asserts]
+/-- `PyAlloc_intersect` for a 3 x 4 target grid -/
+example : PyAlloc_intersect { xy_area_0 := 7, xy_area_1 := 2, npoints_0 := 1, idxcells_0 := 12, weights_0 := 12 }
+    { nrows := 3, ncols := 4 } := by
+  simp [PyAlloc_intersect]
+/-- the sortedness hypothesis of `delineateBoundary_safe` for the cells `2, 2, 5` -/
+example : ∀ i j : Nat, i ≤ j → (j : Int) < 3 →
+    (fun k => if k = 2 then (5 : Int) else 2) i ≤ (fun k => if k = 2 then (5 : Int) else 2) j := by
+  intro i j hij hj
+  simp only []
+  split <;> split <;> omega
+/-- a one-cell area (the defect repaired in `c_delineate_boundary`) runs clean in the model -/
+example : isOk (delineateBoundary
+    (fun b => match b with | .idxcellsArea => 1 | .buffer => 1 | .mask => 9 | .idxboundary => 1 | _ => 0)
+    3 3 1 (fun _ => 4) (fun i => if i = 4 then 1 else 0)) = true := by decide +kernel
 
 end HydroVerif.C05
